@@ -280,7 +280,10 @@ impl Prop for C08 {
             // all_pairs with a target (sampled)
             {
                 let t = next(n);
-                let ap = call!(format!("all_pairs[{},target]", mn), dijkstra::all_pairs(&graph, weighted, Some(names[t].clone()), None, false, true));
+                // inside a small pool several sources share one worker, which is where state
+                // leaking from one source's search into the next would show
+                let pool = crate::props::c17::pool_of(2 + next(2));
+                let ap = call!(format!("all_pairs[{},target]", mn), pool.install(|| dijkstra::all_pairs(&graph, weighted, Some(names[t].clone()), None, false, true)));
                 let ctx = format!("all_pairs[{},target]", mn);
                 for s in 0..n {
                     let Some(m) = ap.get(&names[s]) else {
